@@ -8,6 +8,10 @@ def seqs(alpha, kmax):
         cur = [10 * s + d for s in cur for d in alpha]; out += cur
     return out
 OBLIGATIONS = [
+    Ob('record_reader', 'C18/record.c', [REC],
+       what='gdsii_read_record on an arbitrary stream: NoError iff the complete record was available (and fits), delivered verbatim; error otherwise; no write beyond buffer_count',
+       bound='stream lengths 0..12 (one variant each), all byte contents, caller buffer_count 0..24',
+       variants=[{'STREAMLEN': n} for n in range(0, 13)], unwind=34, timeout=200, wrap_files=True, nvec=30),
     Ob('rawcells_truncated', 'C18/rawcells.c', [RAW], stubs=[REC, HASH, COPYSTR], ir='ni', shrink=[(65537, 64, {RAW})], rename={'strlen': 'my_strlen1'},
        what='read_rawcells after a prefix of records (kinds scripted, payload arbitrary) followed by a short read: returns, no double free / invalid free, handle released, error set, empty result',
        bound='record prefixes of length <= 3 from {BGNSTR, STRNAME, ENDSTR, SNAME, other} that matter for cleanup; names 1 character; hash arbitrary',
